@@ -186,6 +186,19 @@ func init() {
 		})
 		return out
 	}
+	c12Discover["token"] = func(c *allChain, ctx sdk.Context) []qcall {
+		out := []qcall{q("token", "irismod.token.v1.Query", "Tokens", "irismod.token.v1.QueryTokensRequest", nil, "tokens"),
+			q("token", "irismod.token.v1.Query", "TotalBurn", "irismod.token.v1.QueryTotalBurnRequest", nil, "burn-totals"),
+			q("token", "irismod.token.v1.Query", "Params", "irismod.token.v1.QueryParamsRequest", nil, "params")}
+		for _, t := range c.r.K.Token.GetTokens(ctx, nil) {
+			out = append(out, q("token", "irismod.token.v1.Query", "Token", "irismod.token.v1.QueryTokenRequest", map[string]any{"denom": t.GetSymbol()}, "token-by-symbol"),
+				q("token", "irismod.token.v1.Query", "Token", "irismod.token.v1.QueryTokenRequest", map[string]any{"denom": t.GetMinUnit()}, "token-by-min-unit"))
+		}
+		for _, a := range c.r.Accounts {
+			out = append(out, q("token", "irismod.token.v1.Query", "Tokens", "irismod.token.v1.QueryTokensRequest", map[string]any{"owner": a.Addr.String()}, "tokens-by-owner"))
+		}
+		return out
+	}
 	c12Discover["service"] = func(c *allChain, ctx sdk.Context) []qcall {
 		out := []qcall{q("service", "irismod.service.Query", "Params", "irismod.service.QueryParamsRequest", nil, "params")}
 		c.r.K.Service.IterateServiceDefinitions(ctx, func(d servicetypes.ServiceDefinition) bool {
@@ -222,15 +235,22 @@ func runQuery(r *rig.Rig, ctx sdk.Context, qc qcall) (out string) {
 	return hex.EncodeToString(res.Value)
 }
 
-var reAsset = regexp.MustCompile(`[a-z0-9/]+: asset is`)
+var reAsset = regexp.MustCompile(`[a-z0-9/]+: asset `)
 var reCoin = regexp.MustCompile(`#[a-z][a-z0-9/-]*(,#[a-z][a-z0-9/-]*)*`)
 var reNoise = regexp.MustCompile(`[0-9A-Fa-f]{16,}|cosmos1[0-9a-z]+|[0-9]+`)
 
 func errClass(err error) string {
-	s := strings.ToLower(err.Error())
+	s := err.Error()
+	if i := strings.Index(s, "\n"); i >= 0 { // drop the stack
+		s = s[:i]
+	}
+	if i := strings.Index(s, " [/"); i >= 0 { // drop source positions
+		s = s[:i]
+	}
+	s = strings.ToLower(s)
 	s = reNoise.ReplaceAllString(s, "#")
 	s = reCoin.ReplaceAllString(s, "#coin")
-	s = reAsset.ReplaceAllString(s, "#asset: asset is")
+	s = reAsset.ReplaceAllString(s, "#asset: asset ")
 	s = strings.Join(strings.Fields(s), " ")
 	if len(s) > 90 {
 		s = s[:90]
